@@ -11,6 +11,7 @@ CONSTANTS
   Level = 2
   GenBad = FALSE
   SampleK = 6
+  EmitOneIn = 1
   Focus <- FocusAll
 INVARIANT Emit
 CHECK_DEADLOCK FALSE
